@@ -197,6 +197,21 @@ def check_cart(ctx, case):
     factor = check_forecast_common(ctx, fore, base, case["history"], edges)
     if factor is False:
         return
+    # a forecast holding whole expected counts in an INTEGER array on the same region: data = original x last factor holds for
+    # fractional factors too (nothing is truncated to the stored dtype)
+    from csep.core.forecasts import GriddedForecast
+    ints = (numpy.arange(base.size).reshape(base.shape) % 7 + 1).astype(numpy.int64)
+    gi = call(lambda: GriddedForecast(start_time=T0, end_time=T1, data=ints.copy(), region=region, magnitudes=numpy.array(edges)))
+    if gi.ok:
+        for fct in (0.5, 2.75, 1):
+            osc = call(lambda: numpy.asarray(gi.value.scale(fct).data, dtype=float))
+            if not osc.ok:
+                ctx.unexpected(osc, "scale:integer_forecast")
+                break
+            if osc.value.shape != ints.shape or not numpy.allclose(osc.value, ints * fct, rtol=1e-12, atol=0):
+                ctx.violation("integer_forecast_scaling_not_absolute_and_linear", {"factor": fct, "got_sum": float(osc.value.sum()), "want_sum": float(ints.sum() * fct)})
+                break
+        ctx.count("integer_forecasts_scaled")
     # spatial marginal laid out on the bounding-box grid: active cells hold their row sums, everything else is NaN
     o = call(lambda: fore.spatial_counts(cartesian=True))
     if not o.ok:
